@@ -9,6 +9,8 @@ import (
 	"strings"
 	"sync"
 
+	"github.com/dave/jennifer/jen"
+
 	"verif/internal/a2j"
 	"verif/internal/ev"
 	"verif/internal/explore"
@@ -30,7 +32,15 @@ type c01Case struct {
 
 func c01Hooks(early bool) a2j.Hooks {
 	if early {
-		return a2j.Hooks{EarlyAdd: true, CloneShared: true, UseFunc: func(int, string) bool { return true }}
+		hosts := map[string]bool{"Block": true, "Defs": true, "Struct": true, "Interface": true}
+		return a2j.Hooks{EarlyAdd: true, CloneShared: true, UseFunc: func(int, string) bool { return true },
+			// comments may differ between the trees: put some in, built the way generators build doc text
+			Items: func(site int, name string, items []jen.Code) []jen.Code {
+				if !hosts[name] || site%3 != 0 {
+					return items
+				}
+				return append([]jen.Code{jen.Commentf("%s %s", "generated:", "first line\nsecond line"), jen.Commentf("site %d", site)}, items...)
+			}}
 	}
 	return a2j.Hooks{}
 }
@@ -118,6 +128,33 @@ func runC01(r *ev.Recorder) {
 			}
 		})
 	}
+	// File.Save of translated programs over an existing, longer file: the saved file is the program
+	if dir, err := os.MkdirTemp("", "verif-c01-"); err == nil {
+		root := c01Roots(r.Tier)[0]
+		files := goFilesBelow(root)
+		res := newResolver(defaultGoroot)
+		target := filepath.Join(dir, "saved.go")
+		saved := 0
+		for i := 0; i < len(files) && saved < 40; i += 97 {
+			src, err := os.ReadFile(files[i])
+			if err != nil {
+				continue
+			}
+			os.WriteFile(target, append(append([]byte("package stale\n\n"), src...), src...), 0o644)
+			b := roundTripSave(files[i], src, res.name, target)
+			if b.Kind == "" {
+				continue
+			}
+			saved++
+			r.Eval(1)
+			if b.violation() {
+				desc := fmt.Sprintf("%s translated and written with File.Save over a longer file: %s: %s", strings.TrimPrefix(files[i], root+"/"), b.Kind, b.Detail)
+				r.Violate(ev.Violation{Signature: "c01:save:" + b.Kind, What: desc, Case: ev.JSON(c01Case{Kind: "save", File: files[i], Desc: desc}), Detail: b.Detail})
+			}
+		}
+		os.RemoveAll(dir)
+		r.Count("programs_written_with_Save", int64(saved))
+	}
 	r.Note("corpus_results", kinds)
 	r.Note("corpus_skips_by_reason", skipReasons)
 	r.Note("corpus_declarations_compared", decls)
@@ -153,6 +190,8 @@ func replayC01(raw json.RawMessage) (bool, string) {
 		}
 		b := roundTrip(c.File, src, newResolver(goroot).name, c01Hooks(c.Early))
 		return !b.violation(), fmt.Sprintf("%s: %s %s", c.File, b.Kind, b.Detail)
+	case "save":
+		return true, "the Save cases are replayed by running the check"
 	case "gen":
 		return c01ReplayGenerated(c)
 	}
